@@ -195,13 +195,14 @@ theorem C03_gen_seq :
 
 /-- Shape of `_pyroInvoke`, `__pyroCheckSequence`, `_pyroRelease`, the handshake and `recv_stub` that
     `invokeOn` / `connect` follow: connect and increment before the `try`; inside it send, oneway return,
-    receive (RESULT only), sequence check, deserialise — in this order; CommunicationError and
+    receive (RESULT only), sequence check, serializer check, only then the wire-level-response early return
+    (so `_pyroRawWireResponse` proxies get the same checks — the model has no such switch), deserialise — in this order; CommunicationError and
     KeyboardInterrupt release and re-raise; the check is `!=` against `_pyroSeq` raising ProtocolError;
     the handshake accepts CONNECTOK/CONNECTFAIL and does not check the sequence number; the type filter
     of `recv_stub` sits between the header and the payload read. -/
 theorem C03_gen_invoke :
     Pyro.Gen.C03.invokePreTry = ["connect-if-none", "seq-increment"] ∧
-    Pyro.Gen.C03.invokeTryOrder = ["send", "oneway-return-none", "recv", "check-seq", "loads"] ∧
+    Pyro.Gen.C03.invokeTryOrder = ["send", "oneway-return-none", "recv", "check-seq", "serializer-check", "raw-return", "loads"] ∧
     Pyro.Gen.C03.invokeAccepts = ["MSG_RESULT"] ∧
     Pyro.Gen.C03.invokeCatches = ["CommunicationError", "KeyboardInterrupt"] ∧
     Pyro.Gen.C03.invokeHandler = ["release", "reraise"] ∧
@@ -224,11 +225,16 @@ theorem C03_gen_retry :
 
 /-- Which calls are retried (`Kind.retried`), which look up metadata first (`Kind.needsMeta`), and the
     stream iterator's connection check (`Kind.precheck`): only `Proxy.__getattr__` builds a
-    `_RemoteMethod`; attribute access, metadata, batches and stream iterators call `_pyroInvoke` directly. -/
+    `_RemoteMethod`, and hands it the proxy's own `_pyroMaxRetries` (the model's `retries`; the global
+    `config.MAX_RETRIES` plays no part once the proxy exists); attribute access, metadata, batches and stream
+    iterators call `_pyroInvoke` directly; `BatchProxy.__call__` forgets its recorded calls after every
+    submit, oneway or not (so a batch is one request carrying only its own calls — `Kind.batch`). -/
 theorem C03_gen_paths :
     Pyro.Gen.C03.directInvokers = ["Proxy.__getattr__", "Proxy.__setattr__", "Proxy._pyroGetMetadata",
       "Proxy._pyroInvokeBatch", "_StreamResultIterator.__next__", "_StreamResultIterator.close"] ∧
     Pyro.Gen.C03.remoteMethodBuilders = ["Proxy.__getattr__"] ∧
+    Pyro.Gen.C03.remoteMethodArgs = ["self._pyroInvoke", "name", "self._pyroMaxRetries"] ∧
+    Pyro.Gen.C03.batchCallShape = ["call:_pyroClaimOwnership", "submit", "clear-calls", "if:Return"] ∧
     Pyro.Gen.C03.metaLookup = ["__getattr__", "__setattr__"] ∧
     Pyro.Gen.C03.streamPrecheck = true := by decide
 
